@@ -567,6 +567,15 @@ bool Instance::configure_tx_txin() {
             fprintf(stderr, "invalid script (witness stack last element)\n");
             return false;
         }
+        // BIP141/BIP342: the initial stack items of a witness script are limited to 520 bytes
+        if (sigver == SigVersion::WITNESS_V0 || sigver == SigVersion::TAPSCRIPT) {
+            for (size_t i = 0; i < wstack_to_stack; i++) {
+                if (wstack[i].size() > MAX_SCRIPT_ELEMENT_SIZE) {
+                    fprintf(stderr, "witness stack item #%zu is %zu bytes (the maximum is %u)\n", i, wstack[i].size(), MAX_SCRIPT_ELEMENT_SIZE);
+                    return false;
+                }
+            }
+        }
         // put remainder on to-be-parsed stack
         for (size_t i = 0; i < wstack_to_stack; i++) {
             push_del.push_back(strdup(HexStr(wstack[i]).c_str())); // TODO: use as is rather than hexing and dehexing
